@@ -19,7 +19,7 @@ func validateTmpl(t *Tmpl) error {
 				continue
 			}
 			j := i + 1
-			for j < len(t.SQL) && !strings.ContainsRune(" ,)", rune(t.SQL[j])) {
+			for j < len(t.SQL) && !strings.ContainsRune(" ,)\n", rune(t.SQL[j])) {
 				j++
 			}
 			refs = append(refs, t.SQL[i+1:j])
